@@ -39,6 +39,13 @@ def _cases_main(rng, tier):
         ls2 = ls[:rng.randint(0, len(ls))] + [h]
         yield "ckd %s %s -" % (pub, impl.lst(str, ls2)), "pub-hardened-in-path"
     yield "ckd %s 4294967296 -" % pub, "pub-index-overflow"
+    # parents whose x coordinate sits at a boundary of the coordinate range (common.boundary_points)
+    for sec33 in common.boundary_points():
+        chain = hx(bytes(rng.getrandbits(8) for _ in range(32)))
+        spec_b = "p:%s:%s:1:7:%s:01020304" % (hx(sec33), chain, rng.choice("01"))
+        for i in (0, rng.getrandbits(31)):
+            yield "ckd %s %d -" % (spec_b, i), "pub-boundary-point-parent"
+        yield "ckd %s %d -" % (spec_b, 2 ** 31), "pub-boundary-point-hardened"
     # sibling parents that differ in exactly ONE field (same key / other chain code, same chain code / other key,
     # same both / other depth): the result must depend on every input of CKDpub, in one process
     for _ in range(n // 2):
